@@ -86,16 +86,22 @@ def dec(j):
     return j
 
 
-def to_model(j):
-    """protocol JSON -> what the Lean driver reads (sets travel as lists; PyVal has no set)"""
+SET_AS_LIST = ("arches", "platforms", "tree.platforms")
+
+
+def to_model(j, key=None):
+    """protocol JSON -> what the Lean driver reads.  PyVal has no set: the sets whose ELEMENTS the validators read (arches,
+    platforms) travel as lists, any other set is a foreign object"""
     if isinstance(j, list):
         return [to_model(x) for x in j]
     if isinstance(j, dict):
         if list(j) == ["$set"]:
-            return [to_model(x) for x in j["$set"]]
+            if key in SET_AS_LIST:
+                return [to_model(x) for x in j["$set"]]
+            return {"$other": bool(j["$set"])}
         if list(j) in (["$float"], ["$other"]):
             return j
-        return dict((k, to_model(x)) for k, x in j.items())
+        return dict((k, to_model(x, k)) for k, x in j.items())
     return j
 
 
